@@ -370,9 +370,18 @@ def expand(prog: 'object') -> list[str]:
                         if budget <= 0:
                             i += 1
     if log:
+        from kfv import localnames
         from kfv import normalize
         for caller in touched.values():
             normalize._fold(caller.node)      # constants substituted for parameters: getattr(o, f'_{k}') etc. fold now
+            try:
+                # the spliced code comes from functions outside the inventory: give it the inventory spelling of the
+                # caller (comparison orientation, if/else polarity, argument style) like the rest of the caller
+                localnames.table()
+                localnames.restore_function(caller.qualname, caller.node, log)
+                normalize._drop_else(caller.node)
+            except Exception as e:  # noqa: BLE001
+                log.append(f'{caller.short}: re-canonicalisation after expansion skipped ({type(e).__name__}: {e})')
             renumber(caller.node)
         prog.reindex()  # type: ignore[attr-defined]
     return sorted(set(log))
